@@ -5,7 +5,7 @@ import os
 
 HERE = os.path.dirname(os.path.dirname(os.path.abspath(__file__)))
 
-TECH = 'bounded symbolic execution of the real pytenet code (symx: polynomial scalars in NumPy object arrays, re-execution DFS), path feasibility by z3 QF_LIA/QF_LRA, VCs by z3 QF_LRA on linearised ideal membership modulo LAPACK contracts; counterexamples replayed on the real code'
+TECH = 'bounded symbolic execution of the real pytenet code (symx: polynomial scalars in NumPy object arrays, re-execution DFS), path feasibility by z3 QF_LIA/QF_LRA, VCs by z3 QF_LRA on linearised ideal membership modulo LAPACK contracts (sampled queries re-decided by cvc5); counterexamples replayed on the real code; a concrete validation sweep of the encoding (sampling, reported separately) runs first'
 
 CHECKS = {
     'C11': dict(
@@ -35,9 +35,9 @@ CHECKS = {
     'C03': dict(
         text='add/sub/compose/apply/identity/dense conversion run on symbolic tensors (all independent bond profiles D<=2, L<=3, real and complex); '
              'dense(result) is compared with the dense expression of the operands as polynomial identities decided by SMT for all entry values; '
-             'symbolic charges enumerate every sparsity layout at L<=2; from_vector(tol=0) and split+merge hold modulo the SVD contract.',
-        note='Trusts SVD/norm contracts, z3, engine. Outside: as_matrix(sparse_format=True) (SciPy sparse cannot hold symbols: dense=sparse sub-claim NOT decided), '
-             'd>2, D>2, L>3, dtype promotion, rounding.',
+             'symbolic charges enumerate every sparsity layout at L<=2; from_vector(tol=0, n<=2 sites) and split+merge hold modulo the SVD contract.',
+        note='Trusts SVD/norm contracts, z3, engine. Outside the solver-based claim: as_matrix(sparse_format=True) (SciPy sparse cannot hold symbols) and dtype promotion -- '
+             'both are only exercised by the concrete validation sweep (sampling); from_vector for n>=3 sites; d>2, D>2, L>3, rounding.',
         design='6 C03'),
     'C04': dict(
         text='Everything in operation.py runs on symbolic complex tensors; vdot, norm, operator averages, traces, and the projection identity '
@@ -48,7 +48,8 @@ CHECKS = {
     'C05': dict(
         text='from_opchains/from_opgraph run with symbolic coefficients and symbolic interleaved charges over ALL chain-list skeletons in the bound '
              '(L<=3, <=3 chains, ids incl. identity inside chains, duplicates, all orders); zero / cancelling / accumulate-to-one coefficient cases are paths; '
-             'the word-coefficient identities (free algebra) and the MPO matrix identity under a symbolic operator map are decided by SMT per path.',
+             'the word-coefficient identities (free algebra) and the MPO matrix identity under a symbolic operator map are decided by SMT per path; from_opgraph is also run on '
+             'arbitrary generated graphs (parallel same-operator edges, multi-operator edges, shuffled node ids).',
         note='Trusts z3, engine, the word-semantics oracle (refs/words.py). OpHalfchain.__hash__ is made constant by the shim (lookups decide by __eq__). '
              'Outside: L>3 (4 thorough), >3 chains, operator maps other than 2x2 real.',
         design='6 C05'),
@@ -76,7 +77,8 @@ CHECKS = {
         design='6 C12'),
     'C13': dict(
         text='PARTIAL. MPS.compress runs symbolically (QR + SVD contracts, symbolic tolerance): block sparsity, canonical form, non-growing bonds, C12 truncation rule at the '
-             'first truncated bond, and exactness nrm*scale*dense(new)=dense(old) when nothing is discarded / tol=0 are proved by SMT for L<=2 (3 structural). '
+             'first truncated bond together with the canonical form of the not-yet-swept part of the chain at that moment (so the truncated values are Schmidt values), and exactness '
+             'nrm*scale*dense(new)=dense(old) when nothing is discarded / tol=0 are proved by SMT for L<=2 (3 structural). '
              'The error BOUNDS for tol>0 (scale >= sqrt(1-L tol), error <= nrm sqrt(L tol)) and from_vector(tol>0) are NOT decided.',
         note='Trusts QR/SVD contracts, z3, engine. Outside: error bounds for tol>0, from_vector(tol>0), scale=1 at tol=0, zero states, L>3.',
         design='6 C13'),
